@@ -10,7 +10,7 @@ hexadecimale_timestamp_to_localtime must give HH:MM back.  Malformed strings mus
 import struct
 
 from mc.core import optimized_job as core_optimized_job, run_optimized as core_run_optimized, Res
-from mc.world import Clock, set_zone
+from mc.world import Clock, SteppingClock, set_zone
 from ref import zones as Z
 
 ID = "C11"
@@ -30,9 +30,12 @@ BAD = ["", ":", "12", "1200", "12:", ":30", "24:00", "23:60", "12:60", "99:99", 
 NOWS = [(0, 0, 30), (12, 0, 0), (23, 59, 30)]
 
 
+STEP_DATES = ["2026-12-31", "2027-02-28", "2024-02-28", "2024-02-29", "2026-04-30", "2026-07-14"]
+
+
 def jobs(tier, seed):
     # one job per zone, all its dates in sequence: anything remembered from one date to the next shows inside the job
-    return core_optimized_job([{"zone": zone, "dates": [d.isoformat() for d in Z.dates_for(zone, tier)]} for zone in Z.ZONES])
+    return core_optimized_job([{"part": "stepping", "zone": zone, "tier": tier} for zone in Z.ZONES] + [{"zone": zone, "dates": [d.isoformat() for d in Z.dates_for(zone, tier)]} for zone in Z.ZONES])
 
 
 def check_minute(res, zone, date, now_epoch, m):
@@ -70,12 +73,69 @@ def check_minute(res, zone, date, now_epoch, m):
         res.counters["ambiguous_minutes"] += 1
 
 
+def check_stepping(res, clk, zone, date, m, jump_at):
+    """The clock passes local midnight just before clock read number `jump_at` of one encoding call: the result must be
+    HH:MM on the date before or on the date after - the two dates the call was made on - never a mixture."""
+    import datetime
+
+    from aioswitcher.schedule import tools
+
+    hhmm = "%02d:%02d" % divmod(m, 60)
+    nxt = date + datetime.timedelta(days=1)
+    case = {"stepping": True, "zone": zone, "date": date.isoformat(), "hhmm": hhmm, "jump_at": jump_at}
+    w1, w2 = Z.local_to_epochs(zone, date, m // 60, m % 60), Z.local_to_epochs(zone, nxt, m // 60, m % 60)
+    clk.move_to(float(Z.epoch_at(zone, date, 23, 59, 59)) + 0.5)
+    clk.arm(jump_at)
+    try:
+        hx = tools.time_to_hexadecimal_timestamp(hhmm)
+    except Exception as exc:  # noqa: BLE001
+        if w1 and w2:
+            res.violation("encode-raises-at-midnight", case, f"{zone} {date} -> {nxt}, clock passing midnight before read {jump_at}: encoding {hhmm} raised {exc!r}")
+        return clk.reads
+    finally:
+        clk.jump_at = None
+    res.case(("step", zone, date.toordinal(), m, jump_at), nontrivial=clk.jumped)
+    try:
+        val = struct.unpack("<I", bytes.fromhex(hx))[0]
+    except Exception:  # noqa: BLE001
+        val = None
+    if (w1 or w2) and val not in (w1 | w2):
+        res.violation("encode-mixes-two-dates", case,
+                      f"{zone}: the clock passes from {date} to {nxt} before read {jump_at} of one call; {hhmm} encoded as {hx!r} = "
+                      f"{Z.local_hm(zone, val) if val is not None else None} on {Z.local_date(zone, val) if val is not None else None}, which is neither date",
+                      sorted(w1 | w2), hx)
+    return clk.reads
+
+
+def run_stepping(job, res):
+    import datetime
+
+    zone = job["zone"]
+    set_zone(zone)
+    minutes = range(0, 1440, 1 if job.get("tier") == "thorough" else 11)
+    with SteppingClock(0.0) as clk:
+        for d in STEP_DATES:
+            date = datetime.date.fromisoformat(d)
+            if not Z.local_to_epochs(zone, date, 23, 59, 59):
+                continue
+            for m in sorted(set(minutes) | {0, 1, 59, 60, 1380, 1438, 1439}):
+                reads = check_stepping(res, clk, zone, date, m, None)  # count the reads of this call
+                for k in range(reads + 1):
+                    check_stepping(res, clk, zone, date, m, k)
+                res.counters["clock_reads_per_call_max"] = max(res.counters["clock_reads_per_call_max"], reads)
+    res.outcome(("stepping", zone))
+    return res
+
+
 def run_job(job):
     if job.get("part") == "optimized":
         r0 = Res()
         core_run_optimized(ID, job.get("tier", "quick"), r0)
         return r0
     import datetime
+
+    if job.get("part") == "stepping":
+        return run_stepping(job, Res())
 
     res = Res()
     for d in job["dates"]:
@@ -151,6 +211,11 @@ def replay(case):
     res = Res()
     set_zone(case["zone"])
     date = datetime.date.fromisoformat(case["date"])
+    if case.get("stepping"):
+        with SteppingClock(0.0) as clk:
+            h, m = case["hhmm"].split(":")
+            check_stepping(res, clk, case["zone"], date, int(h) * 60 + int(m), case["jump_at"])
+        return res.violations
     with Clock(0.0) as clk:
         if "bad" in case:
             try:
